@@ -107,3 +107,10 @@ def search(ctx):
 
 def replay(ctx, case):
     return replay_eval(ctx, "C12", case)
+
+
+MANIFEST = dict(
+    text='Proof (MODULAR/PARTIAL): the 2x2 operators chosen by _build_multiplexor map the normalised child pair to e_bit for both target bits and for the vanishing-|0>-child case, and are unitary (C12_branch0/1, C12_diag0/1, C12_G0_unitary; any field with involution). Tie: every operator list built during a run is checked against these statements, and every UCGate against the contract diag(_get_diagonal())*circuit = multiplexer. Column t, preserve option and UCGE are evaluated.',
+    note='Modelled, not verified: Qiskit UCGate; induction over levels with the carried diagonal; preserve option; UCGE simplification.',
+    technique='Coq/mathcomp proof + runtime contract monitors + operator-column evaluation',
+    design_ref='DESIGN.md section 4, C12')
